@@ -914,7 +914,7 @@ class Pseudotime:
     '''
 
     def __init__(self, inertia: Tuple[evaluable.AsEvaluableArray,...], timestep: float, **linargs):
-        self.inertia = inertia
+        self.inertia = tuple(map(evaluable.asarray, inertia))
         self.timestep = timestep
         self.linargs = linargs
 
